@@ -185,9 +185,15 @@ func runsFor(prop, tier string) []run {
 		c5.Oracles = []string{"chain", "read", "snapdirect", "snaprevert", "crashopen", "reopen"}
 		c5.MaxSnaps = 5
 		c5.MaxWrites = 6
+		// the configured chain-length limit (4 files): snapshots up to the limit, the refusal at it, and everything that
+		// rebuilds the chain afterwards (reopen, reload, revert, removal making room again)
+		c6 := c
+		c6.MaxChain = 4
+		c6.Alphabet = []string{"W", "SnapU", "SnapA", "Rm", "Revert", "ReopenP", "Reload", "Mark"}
+		c6.MaxSnaps = 6
 		c4 := c2
 		c4.ViaREST = true
-		return []run{{"2blk-orphan-targets", c5, pick(3, 5), minutes(pickf(0.7, 6))}, {"2blk-mgmt-from-chain3-through-rest", c4, pick(3, 5), minutes(pickf(0.7, 6))}, {"2blk-mgmt", c, pick(5, 6), minutes(pickf(1.4, 10))}, {"2blk-mgmt-from-chain3", c2, pick(4, 5), minutes(pickf(1.0, 10))}, {"2blk-mgmt-from-auto-chain4", c3, pick(3, 5), minutes(pickf(0.9, 8))}}
+		return []run{{"2blk-chain-length-limit-4", c6, pick(5, 6), minutes(pickf(0.6, 5))}, {"2blk-orphan-targets", c5, pick(3, 5), minutes(pickf(0.7, 6))}, {"2blk-mgmt-from-chain3-through-rest", c4, pick(3, 5), minutes(pickf(0.7, 6))}, {"2blk-mgmt", c, pick(5, 6), minutes(pickf(1.4, 10))}, {"2blk-mgmt-from-chain3", c2, pick(4, 5), minutes(pickf(1.0, 10))}, {"2blk-mgmt-from-auto-chain4", c3, pick(3, 5), minutes(pickf(0.9, 8))}}
 	case "C17":
 		alpha := []string{"Close", "Open", "Mode:RW", "Mode:WO", "Mode:junk", "Rebuild:t", "Rebuild:f", "Reload", "W", "R", "Sync", "Unmap", "SnapA", "SetRev:9", "RmGate", "Mark", "Rm", "RevertUnknown", "SnapDup", "Shrink", "ResizeGarbage", "RmHead", "RmRawLatest", "RmUnknown"}
 		c := ea.Cfg{Blocks: 2, Alphabet: alpha, WShapes: [][2]int{{0, 8}}, RShapes: [][2]int{{0, 16}}, Oracles: []string{"rev", "read"}, MaxSnaps: 3, MaxWrites: 4,
